@@ -5,7 +5,7 @@
  "properties": {"C01": "contract", "C19": "safety"},
  "mode": "harness",
  "replace_calls": {"labelstmt": "rec_labelstmt"},
- "variants": {"while": ["-DV_KIND=TWHILE", "-DV_WHILE"], "do": ["-DV_KIND=TDO", "-DV_DO"], "for": ["-DV_KIND=TFOR", "-DV_FOR"], "if": ["-DV_KIND=TIF", "-DV_IF"], "ifelse": ["-DV_KIND=TIF", "-DV_IF", "-DV_ELSE=1"]},
+ "variants": {"while": ["-DV_KIND=TWHILE", "-DV_WHILE"], "do": ["-DV_KIND=TDO", "-DV_DO"], "for": ["-DV_KIND=TFOR", "-DV_FOR"], "for-noinc": ["-DV_KIND=TFOR", "-DV_FOR", "-DV_NOINC"], "if": ["-DV_KIND=TIF", "-DV_IF"], "ifelse": ["-DV_KIND=TIF", "-DV_IF", "-DV_ELSE=1"]},
  "kind": "proof",
  "timeout": 120, "replay": false,
  "assumes": ["callees of stmt() are the stand-ins of units/stmt/stmt_common.h, which log every label/jump/conditional jump/expression evaluation stmt() requests from the back end; the loop body (labelstmt) is redirected to a recorder that logs the scope's break/continue targets; expressions are opaque (their lowering is QBE.* units' business)",
@@ -66,6 +66,9 @@ harness(void)
 	outer.breaklabel = &outer_brk;
 	outer.continuelabel = &outer_cont;
 	tok.kind = V_KIND;
+#ifdef V_NOINC
+	exp_switch_at = 3; exp_switch_to = TRPAREN;   /* for (i; e; ) : ')' follows the second ';' */
+#endif
 	stmt(f, s);
 
 	__CPROVER_assert(outer.breaklabel == &outer_brk && outer.continuelabel == &outer_cont, "enclosing loop's targets untouched");
@@ -90,7 +93,17 @@ harness(void)
 	__CPROVER_assert(EVIS(5, EV_LABEL, &blk[2], 0, 0), "L_join last");
 #elif defined(V_FOR)
 	/* blk[0]=cond blk[1]=body blk[2]=cont blk[3]=join */
+#ifdef V_NOINC
+	__CPROVER_assert(nev == 9, "for without clause-3: nine back-end requests");
+	__CPROVER_assert(EVIS(6, EV_LABEL, &blk[2], 0, 0), "L_cont is placed even when clause-3 is empty (continue jumps there)");
+	__CPROVER_assert(EVIS(7, EV_JMP, &blk[0], 0, 0), "back edge to L_cond");
+	__CPROVER_assert(EVIS(8, EV_LABEL, &blk[3], 0, 0), "L_join last");
+#else
 	__CPROVER_assert(nev == 10, "for: ten back-end requests");
+	__CPROVER_assert(evs[7].kind == EV_EXPR, "clause-3 evaluated after the body");
+	__CPROVER_assert(EVIS(8, EV_JMP, &blk[0], 0, 0), "back edge to L_cond");
+	__CPROVER_assert(EVIS(9, EV_LABEL, &blk[3], 0, 0), "L_join last");
+#endif
 	__CPROVER_assert(evs[0].kind == EV_EXPR, "clause-1 evaluated once, first");
 	__CPROVER_assert(EVIS(1, EV_LABEL, &blk[0], 0, 0), "L_cond");
 	__CPROVER_assert(evs[2].kind == EV_EXPR, "controlling expression evaluated before each iteration");
@@ -98,9 +111,6 @@ harness(void)
 	__CPROVER_assert(EVIS(4, EV_LABEL, &blk[1], 0, 0), "L_body");
 	__CPROVER_assert(evs[5].kind == EV_BODY && g_cont[0] == &blk[2] && g_brk[0] == &blk[3], "continue -> L_cont (clause-3 still runs), break -> L_join");
 	__CPROVER_assert(EVIS(6, EV_LABEL, &blk[2], 0, 0), "L_cont");
-	__CPROVER_assert(evs[7].kind == EV_EXPR, "clause-3 evaluated after the body");
-	__CPROVER_assert(EVIS(8, EV_JMP, &blk[0], 0, 0), "back edge to L_cond");
-	__CPROVER_assert(EVIS(9, EV_LABEL, &blk[3], 0, 0), "L_join last");
 #elif defined(V_IF)
 	/* blk[0]=true blk[1]=false blk[2]=join */
 	__CPROVER_assert(EVIS(0, EV_EXPR, &e_ctl, 0, 0), "condition evaluated once, first");
